@@ -297,3 +297,23 @@ CHECKS["C13"] = {
                   "external RNG healthy, all-zero, all-ones, short-period and counter.",
     "level_note": "Held on the inspected proofs. Trusted: FmPoint coordinate extraction (self-checked via B[H] = r*y*s), refbp nonce derivation.",
 }
+
+CHECKS["C14"] = {
+    "title": "Prover randomness is hedged against failure of the external RNG",
+    "level": "fault_enumeration",
+    "technique": "runtime monitoring under injected RNG faults: transcript-RNG draws and their lineage (fork from proving transcript, rekey with full witness bytes, finalise with external randomness, built from the then-current transcript) observed at the merlin boundary; paired runs differing in exactly one input, incl. different witnesses of the same commitment via degenerate generators",
+    "design_ref": "DESIGN.md section 4 C14",
+    "legs": [{"name": "fm", "shards": 16}, {"name": "ris", "shards": 16}],
+    "rule": "one case = a pair of prover runs under the same faulty external RNG stream (all-zero, all-ones, period 1/2/32, counter) differing in exactly one of: transcript context, one promise, one commitment, "
+            "or the witness with identical public data (G_a = G_b with components re-split or swapped for (a,b) in {(0,1),(d-2,d-1),(0,d-1)}; H = G_0 with (v,r) vs (v+1,r-1)); non-trivial = both runs produced a proof "
+            "and their transcript-RNG draws and event lineages were compared; distinct = distinct (group, configuration, seededness, differing input, fault model)",
+    "require": {"quick": {"run_pairs": 2000, "same_commitment_witness_pairs": 700, "draw_lineages_checked": 100000, "identical_run_pairs": 400},
+                "thorough": {"run_pairs": 12000, "same_commitment_witness_pairs": 4000, "draw_lineages_checked": 600000, "identical_run_pairs": 2500}},
+    "assumptions": COMMON_ASSUMPTIONS + ["the RNG-derived nonces are observed as the 64-byte outputs of the transcript RNG (C13 shows over the free-module group that these are exactly the nonces used)",
+                                         "fault models: constant, short-period and counter streams, and replay of the identical stream in both runs of a pair"],
+    "level_text": "Hands the real prover a failed external RNG and observes, at the merlin boundary, every value it draws from its transcript RNG and how that RNG was built. Pairs of runs that differ in "
+                  "the witness only (same commitments, via degenerate generators), in the context, or in one statement field must share no draw; identical runs must give identical proofs; every draw must come from "
+                  "an RNG forked from the proving transcript after the latest prover message, rekeyed with the complete serialised witness and finalised with external randomness; the external RNG must be consumed "
+                  "only through those finalisations.",
+    "level_note": "Fault enumeration over six RNG fault models x the listed single-input differences; held on the executed pairs. Trusted: the merlin probe.",
+}
